@@ -149,6 +149,8 @@ func c14Gen(r *rand.Rand) *c14Case {
 		c.Files = append(c.Files, f)
 	}
 	c.Decoys = sut.Tree{
+		".git":                      "gitdir: ../.git/worktrees/crs\n", // the checkout is a git worktree: .git is a file
+		".github/workflows/ci.yml":  "# OWASP CRS ver.1.0.0\n",
 		"notes.example.txt":         "# OWASP CRS ver.1.0.0\n    ver:'OWASP_CRS/1.0.0',\\\n",
 		"rules/old.conf.bak":        "# OWASP CRS ver.1.0.0\nSecComponentSignature \"OWASP_CRS/1.0.0\"\n",
 		"README.md":                 "ver:'OWASP_CRS/1.0.0'\n# Copyright (c) 2021-2022 CRS project. All rights reserved.\n",
